@@ -175,7 +175,11 @@ pub fn encoder_relations(args: &Args, s: &mut Summary) {
                     && rejected.iter().all(|p| p.starts_with("[HitObjects]") && p.split(',').nth(7).and_then(|x| x.trim().parse::<f64>().ok()).map_or(false, |l| l > 131_072.0))
                     && probs.iter().all(|p| p.contains("rejects its own encoder's line") || p.starts_with("hit objects "))
                     && m2.hit_objects.len() + n_beyond == m1.hit_objects.len();
-                s.mismatch(if all_beyond { "rejects-own-output:natural-length-beyond-limit" } else if typed_last { "rejects-own-output:typed-last-point" } else { "rejects-own-output" },
+                // a sample point the encoder derives from an object that ENDS beyond the largest time the decoder accepts
+                let time_beyond = !rejected.is_empty()
+                    && rejected.iter().all(|p| p.starts_with("[TimingPoints]") && p.split('"').nth(1).and_then(|l| l.split(',').next()).and_then(|x| x.trim().parse::<f64>().ok()).map_or(false, |t| t > 2_147_483_647.0))
+                    && probs.iter().all(|p| p.contains("rejects its own encoder's line"));
+                s.mismatch(if time_beyond { "rejects-own-output:time-beyond-limit" } else if all_beyond { "rejects-own-output:natural-length-beyond-limit" } else if typed_last { "rejects-own-output:typed-last-point" } else { "rejects-own-output" },
                            json!({"file": name, "problems": probs.iter().take(4).collect::<Vec<_>>(), "text": if name.starts_with("gen") { text.as_str() } else { "" }}));
             }
         } else {
